@@ -195,7 +195,7 @@ pub fn raw_inputs(ctx: &mut Ctx, rng: &mut Rng, valid: &str) {
 }
 
 pub fn run(ctx: &mut Ctx) {
-    let n = ctx.budget(60_000, 2_000_000);
+    let n = if ctx.miri { ctx.miri_cases(8) } else { ctx.budget(500_000, 10_000_000) };
     let cfg = PathCfg { max_steps: 4, filters: true, big_indices: true };
     // fixed documented forms from the README / rustdoc (sanity anchors)
     if ctx.shard == 0 {
